@@ -1,9 +1,15 @@
 import TongoProofs.Lemmas.TlRoundtrip
+import TongoProofs.Lemmas.TlBindings
 /-! Property C09 — schema compilers emit Go code that implements the schema.
 
-The theorems below are about the *schema-level semantics* `Tl.encode` / `Tl.decode` (lean/TongoModel/Tl/Codec.lean) for
-EVERY schema of the subset, not about `tl/parser/generator.go`: the generator is related to this semantics by
-translation validation over sampled schemas (harness `c09.go`: generate, compile, run, compare with the driver). -/
+The theorems below are about the *schema-level semantics* `Tl.encode` / `Tl.decode` (lean/TongoModel/Tl/Codec.lean,
+written for this verification: the SPECIFICATION) for EVERY schema of the subset. They show that the specification is
+sane (decoder inverts encoder with arbitrary trailing bytes, encodings are self-delimiting, `encode` is defined exactly on
+the typed values) and spell its layout out. NONE of them mentions `tl/parser/generator.go` or its output: for arbitrary
+schemas the generator is related to this semantics only by translation validation over sampled schemas (harness
+`c09.go`: generate, compile, run, compare with the driver). For the ONE schema shipped with the repository the
+generator's output (liteclient/generated.go, equal to the regenerated text by the oracle `go.regen.liteclient`) IS the
+subject of a theorem: `C10.liteapi_steps_eq_schema` over the bindings extracted by translator X7. -/
 namespace Tongo.C09
 open Tongo Tongo.Tl
 
@@ -84,7 +90,14 @@ theorem tl_encode_injective (S : Schema) (hwf : WFSchema S) (t : Ty) (v₁ v₂ 
     (h₁ : encode S t v₁ = some bs) (h₂ : encode S t v₂ = some bs) : v₁ = v₂ :=
   (tl_prefix_free S hwf t v₁ v₂ bs bs [] [] h₁ h₂ rfl).1
 
-/-! ### Layout clauses -/
+/-! ### Layout clauses
+
+Two kinds of statements. `tl_spec_builtin`, `tl_spec_length_escape`, `tl_spec_composite` and the `encode` conjuncts of
+`tl_spec_padding` are RESTATEMENTS of the defining equations of `Tl.encode` in byte terms: they make the specification
+reviewable against the TL documentation clause by clause and have no content beyond the definition. `tl_layout_le`,
+`tl_layout_optional`, `tl_layout_items`, `tl_layout_vector` and the padding characterisation are proved by induction /
+arithmetic. That the Go code produces these bytes is NOT stated here: see `C10.liteapi_steps_eq_schema` (generated
+bindings, extracted) and `C10.gen_EncodeLength` (length prefix, extracted). -/
 
 /-- little-endian integers: `w` bytes, byte `i` is digit `i` in base 256 -/
 theorem tl_layout_le (w n : Nat) :
@@ -100,8 +113,8 @@ theorem tl_layout_le (w n : Nat) :
       simp only [le, List.getElem?_cons_succ, ih (n / 256) i (by omega), Nat.div_div_eq_div_mul, Nat.pow_succ,
         Nat.mul_comm]
 
-/-- `# int` are 4 bytes, `long` 8 bytes, `int256` the 32 bytes themselves, `Bool` the two magic ids, `true` nothing -/
-theorem tl_layout_builtin (S : Schema) :
+/-- (restatement of the definition) `# int` are 4 bytes, `long` 8 bytes, `int256` the 32 bytes themselves, `Bool` the two magic ids, `true` nothing -/
+theorem tl_spec_builtin (S : Schema) :
     (∀ n, n < 2 ^ 32 → encode S .nat (.num n) = some (le 4 n) ∧ encode S .int (.num n) = some (le 4 n)) ∧
     (∀ n, n < 2 ^ 64 → encode S .long (.num n) = some (le 8 n)) ∧
     (∀ bs : Bytes, bs.length = 32 → encode S .int256 (.raw bs) = some bs) ∧
@@ -113,8 +126,8 @@ theorem tl_layout_builtin (S : Schema) :
   · simp [encode, boolFalseId, le]
   · simp [encode]
 
-/-- the length prefix: one byte below 254, the escape byte 254 and three little-endian bytes from 254 on -/
-theorem tl_layout_length_escape :
+/-- (restatement of the definition, the three little-endian bytes spelled out) the length prefix: one byte below 254, the escape byte 254 and three little-endian bytes from 254 on -/
+theorem tl_spec_length_escape :
     (∀ n, n < 254 → encLen n = [UInt8.ofNat n]) ∧
     (∀ n, 254 ≤ n → encLen n =
       [254, UInt8.ofNat (n % 256), UInt8.ofNat (n / 256 % 256), UInt8.ofNat (n / 65536 % 256)]) := by
@@ -122,18 +135,27 @@ theorem tl_layout_length_escape :
   rw [encLen_long n (by omega)]
   simp [le, Nat.div_div_eq_div_mul]
 
-/-- byte strings: prefix, data, then exactly `(4 − n mod 4) mod 4` zero bytes (n = prefix + data length); the field is
-a multiple of four bytes long -/
-theorem tl_layout_padding (bs : Bytes) :
-    encBytes bs = encLen bs.length ++ bs ++
-      List.replicate ((4 - ((encLen bs.length).length + bs.length) % 4) % 4) 0 ∧
+/-- byte strings: prefix, data, then zero bytes; the padding is characterised against the bytes: the field is a multiple of
+four bytes long, and ANY number `k < 4` of zero bytes that makes prefix + data + padding a multiple of four IS the
+padding (so: the least such number, fewer than four). The last two conjuncts restate the definition of `encode` on
+`bytes`/`string` (2²⁴ bytes and more have no encoding). -/
+theorem tl_spec_padding (bs : Bytes) :
     (encBytes bs).length % 4 = 0 ∧
+    (∃ k, k < 4 ∧ encBytes bs = encLen bs.length ++ bs ++ List.replicate k 0) ∧
+    (∀ k, k < 4 → (encLen bs.length ++ bs ++ List.replicate k (0 : UInt8)).length % 4 = 0 →
+      encBytes bs = encLen bs.length ++ bs ++ List.replicate k 0) ∧
     (∀ S : Schema, bs.length < 2 ^ 24 → encode S .bytes (.raw bs) = some (encBytes bs) ∧
       encode S .string (.raw bs) = some (encBytes bs)) ∧
     (∀ S : Schema, 2 ^ 24 ≤ bs.length → encode S .bytes (.raw bs) = none) := by
-  refine ⟨rfl, ?_, fun S h => by simp [encode, h], fun S h => by simp [encode]; omega⟩
-  simp only [encBytes, padLen, List.length_append, List.length_replicate]
-  omega
+  refine ⟨?_, ⟨padLen ((encLen bs.length).length + bs.length), ?_, rfl⟩, ?_, fun S h => by simp [encode, h],
+    fun S h => by simp [encode]; omega⟩
+  · simp only [encBytes, padLen, List.length_append, List.length_replicate]
+    omega
+  · simp only [padLen]; omega
+  · intro k hk hlen
+    simp only [List.length_append, List.length_replicate] at hlen
+    have : k = padLen ((encLen bs.length).length + bs.length) := by simp only [padLen]; omega
+    rw [this]; rfl
 
 /-- conditional fields: with the flag field `flag` holding `m`, a field `name:flag.N?T` contributes no bytes and must
 be absent when bit `N` of `m` is clear, and is encoded like a plain field of type `T` when it is set — for every bit. -/
@@ -163,9 +185,9 @@ theorem tl_layout_flag_value (env : Env) (f : Field) (n : Nat) (ht : f.ty = .nat
     envGet? (pushEnv env f (.num n)) f.name = some n := by
   simp [pushEnv, ht, hc, envGet?]
 
-/-- bare reference = the fields; boxed reference = constructor id, little-endian, then the fields; vector = 32-bit
+/-- (restatement of the definition) bare reference = the fields; boxed reference = constructor id, little-endian, then the fields; vector = 32-bit
 count then the items; request = function id then the parameters -/
-theorem tl_layout_composite (S : Schema) :
+theorem tl_spec_composite (S : Schema) :
     (∀ c fs d, S.ctor? c = some d → encode S (.bare c) (.tuple fs) = encodeFields S d.fields [] fs) ∧
     (∀ t c fs d, S.ctorOf? t c = some d →
       encode S (.boxed t) (.sum c fs) = (encodeFields S d.fields [] fs).map (le 4 d.id ++ ·)) ∧
@@ -225,7 +247,7 @@ theorem tl_layout_facts (S : Schema) :
         f.cond = some (flag, bit) → envGet? env flag = some m →
         (encodeFields S (f :: fs) env (.absent :: vs) ≠ none → m.testBit bit = false) ∧
         (∀ v, v ≠ .absent → encodeFields S (f :: fs) env (v :: vs) ≠ none → m.testBit bit = true)) := by
-  refine ⟨tl_layout_le, tl_layout_length_escape, fun bs => ⟨(tl_layout_padding bs).1, (tl_layout_padding bs).2.1⟩, ?_⟩
+  refine ⟨tl_layout_le, tl_spec_length_escape, fun bs => ⟨rfl, (tl_spec_padding bs).1⟩, ?_⟩
   intro f fs env vs flag bit m hc hm
   have h := tl_layout_optional S f fs env vs flag bit m hc hm
   constructor
@@ -237,6 +259,68 @@ theorem tl_layout_facts (S : Schema) :
     cases hb : m.testBit bit with
     | true => rfl
     | false => exact absurd ((h.1 hb).2 v hv) hne
+
+/-! ### Generator output (as extracted by translator X7, harness/tlbind) implements the schema
+
+`B : Bind.Bindings` is what X7 reads from the TEXT the TL schema compiler emits (struct declarations, the statement
+sequences of every `MarshalTL` / `UnmarshalTL`, guards, tag literals, client methods, decoder table);
+`Bind.agreeAll S B` is the decidable matcher. The theorems hold for EVERY schema and EVERY such `B`; the matcher is
+evaluated (a) by the kernel for the shipped lite_api.tl / generated.go (C10: `Gen.bindings_agree`), (b) by the compiled
+Lean driver for every sampled schema of this property (op `tlc.bind`). -/
+
+open Tongo.Tl.Bind in
+/-- **steps_eq_schema** (proved once, for every schema `S` and every bindings value `B` the matcher accepts): for a type
+`ty` whose references resolve (`tyRefsOk`) and every value `v` the schema encodes to `bs`, the Go value `rep S ty v` that
+carries `v` in the generated structs is (1) marshalled by the generated `MarshalTL` step sequences to exactly `bs` and
+(2) read back by the generated `UnmarshalTL` step sequences from `bs` followed by anything, leaving exactly the rest —
+which is also what the schema decoder returns (3). -/
+theorem steps_eq_schema (S : Schema) (B : Bindings) (hwf : WFSchema S) (hA : agreeAll S B = true) (ty : Ty) (v : Val)
+    (bs : Bytes) (fuel : Nat) (hty : ty ≠ .tru) (hrefs : tyRefsOk S B ty = true) (henc : encode S ty v = some bs)
+    (hfuel : 3 * v.depth ≤ fuel) :
+    marshalGo B fuel (goTyOf ty) (rep S ty v) = some bs ∧
+    (∀ rest, unmarshalGo B fuel (goTyOf ty) (bs ++ rest) = .ok (rep S ty v, rest)) ∧
+    (∀ rest, decode S fuel ty (bs ++ rest) = .ok (v, rest)) :=
+  ⟨(marshal_all S B (typesAgree_of_agreeAll hA)).1 ty v bs fuel hty hrefs henc hfuel,
+   fun rest => (unmarshal_all S B hwf (typesAgree_of_agreeAll hA)).1 ty v bs rest fuel hty hrefs henc hfuel,
+   fun rest => tl_decode_encode S hwf ty v bs rest fuel henc (by omega)⟩
+
+open Tongo.Tl.Bind in
+/-- the same at the level of ONE generated struct: the `MarshalTL` body of the struct `<Ctor>C` of a single-constructor
+type writes `encodeFields` of that constructor, its `UnmarshalTL` body (started on the zero struct) reads it back -/
+theorem method_steps_eq_schema (S : Schema) (B : Bindings) (hwf : WFSchema S) (hA : agreeAll S B = true) (d : Decl)
+    (hd : d ∈ S.types) (h1 : (S.ctorsOf d.result).length = 1) (vs : List Val) (bs : Bytes) (fuel : Nat)
+    (henc : encodeFields S d.fields [] vs = some bs) (hfuel : 3 * depthList vs + 1 ≤ fuel) :
+    ∃ m, B.find (camelGo d.ctor ++ "C") = some (.simple m) ∧
+      runMarshal B fuel m.fields m.marshal (repFields S d.fields vs) = some bs ∧
+      ∀ rest, runUnmarshal B fuel m.fields m.unmarshal (zeroStruct m.fields) (bs ++ rest)
+        = .ok (repFields S d.fields vs, rest) := by
+  obtain ⟨m, hm, hag⟩ := bare_binding (typesAgree_of_agreeAll hA) hd h1
+  exact ⟨m, hm, method_marshal (typesAgree_of_agreeAll hA) hag vs bs fuel henc hfuel,
+    fun rest => method_unmarshal hwf (typesAgree_of_agreeAll hA) hag vs bs rest fuel henc hfuel⟩
+
+open Tongo.Tl.Bind in
+/-- the request wrappers, answer handling and decoder table of the generated client, for every schema and every
+extracted output the matcher accepts: (1) the payload of method `CamelCase f` is `encodeRequest S f ps`; (2) the decoder
+table maps these bytes back to `f` and the parameters; (3) answers: the encoding of any value of the result type is
+returned as that value, the encoding of a `liteServer.error` as that error -/
+theorem client_steps_eq_schema (S : Schema) (B : Bindings) (hwf : WFSchema S) (hA : agreeAll S B = true) (f : String)
+    (d e : Decl) (hf : S.func? f = some d) (he : S.ctor? errorCtor = some e)
+    (herr : tyRefsOk S B (.bare errorCtor) = true) (fuel : Nat) (rest : Bytes) :
+    ∃ m, B.methods.find? (fun m => m.name == camelGo f) = some m ∧
+      (∀ ps bs, encodeRequest S f ps = some bs → 3 * depthList ps + 2 ≤ fuel →
+        clientRequest B fuel m (.tuple (repFields S d.fields ps)) = some bs ∧
+        decoderTable B fuel (bs ++ rest) = .ok (d.id, some (f, .tuple (repFields S d.fields ps)))) ∧
+      (∀ c fs bs, encode S (.boxed d.result) (.sum c fs) = some bs → 3 * depthList fs + 5 ≤ fuel →
+        (∀ cd, S.ctorOf? d.result c = some cd → cd.id ≠ e.id) →
+        clientAnswer B fuel m (bs ++ rest) = .ok (.result (rep S (.boxed d.result) (.sum c fs)))) ∧
+      (∀ evs eb, encodeFields S e.fields [] evs = some eb → 3 * depthList evs + 5 ≤ fuel →
+        clientAnswer B fuel m (le 4 e.id ++ eb ++ rest) = .ok (.serverError (.tuple (repFields S e.fields evs)))) := by
+  obtain ⟨m, hm, h1, h2⟩ := client_answer_eq hwf hA f d e hf he herr fuel rest
+  refine ⟨m, hm, fun ps bs henc hfuel => ?_, h1, h2⟩
+  obtain ⟨m', hm', hreq⟩ := client_request_eq hA f d hf ps bs fuel henc hfuel
+  rw [hm] at hm'
+  cases hm'
+  exact ⟨hreq, decoder_table_eq hwf hA f d hf ps bs rest fuel henc hfuel⟩
 
 /-! ### The hypotheses are satisfiable (non-vacuity): a schema with a flag field, a conditional field, a vector and a
 two-constructor type, and a value of it. These are tests on literals, not proofs about all inputs. -/
@@ -263,5 +347,50 @@ example : encode exSchema2 (.boxed "p.T") (.sum "p.a" [.num 8, .raw [1, 2, 3], .
 
 example : encode exSchema2 (.boxed "p.T") (.sum "p.a" [.num 0, .absent, .vec []])
     = some [0xaa, 0xaa, 0xaa, 0xaa, 0, 0, 0, 0, 0, 0, 0, 0] := by decide
+
+/-- what the generator emits for `exSchema2`, as X7 reads it: struct `PItemC`, sum struct `PT` with the variants `PA`
+(guard on bit 3 of `Mode` around `S` in both methods) and `PB` -/
+def exBindings : Bind.Bindings :=
+  { types := [
+      ("PItemC", .simple { fields := [("X", .u64)], marshal := [⟨some "X", none⟩], unmarshal := [⟨some "X", none⟩] }),
+      ("PT", .sum {
+        variants := [("PA", [("Mode", .u32), ("S", .bytes), ("V", .slice (.named "PItemC"))]), ("PB", [])],
+        marshal := [
+          { sumType := "PA", tag := 0xaaaaaaaa, variant := "PA",
+            steps := [⟨some "Mode", none⟩, ⟨some "S", some ("Mode", 3)⟩, ⟨some "V", none⟩] },
+          { sumType := "PB", tag := 0xbbbbbbbb, variant := "PB", steps := [] }],
+        unmarshal := [
+          { tag := 0xaaaaaaaa, sumType := "PA", variant := "PA",
+            steps := [⟨some "Mode", none⟩, ⟨some "S", some ("Mode", 3)⟩, ⟨some "V", none⟩] },
+          { tag := 0xbbbbbbbb, sumType := "PB", variant := "PB", steps := [] }] })],
+    methods := [], decoders := [] }
+
+/-- non-vacuity of `steps_eq_schema`: the matcher accepts these bindings; it rejects them when the guard tests another
+bit, when two steps are swapped, and when a tag literal differs (tests on literals) -/
+example : Bind.agreeAll exSchema2 exBindings = true := by decide
+
+example : Bind.agreeAll exSchema2 { exBindings with types := exBindings.types.map fun (n, b) =>
+    match b with
+    | .sum s => (n, .sum { s with marshal := s.marshal.map fun k =>
+        { k with steps := k.steps.map fun st => { st with guard := st.guard.map fun (f, _) => (f, 4) } } })
+    | b => (n, b) } = false := by decide
+
+example : Bind.agreeAll exSchema2 { exBindings with types := exBindings.types.map fun (n, b) =>
+    match b with
+    | .sum s => (n, .sum { s with unmarshal := s.unmarshal.map fun k => { k with steps := k.steps.reverse } })
+    | b => (n, b) } = false := by decide
+
+example : Bind.agreeAll exSchema2 { exBindings with types := exBindings.types.map fun (n, b) =>
+    match b with
+    | .sum s => (n, .sum { s with unmarshal := s.unmarshal.map fun k => { k with tag := k.tag + 1 } })
+    | b => (n, b) } = false := by decide
+
+/-- … and through the theorem: the Go value carrying `p.a(8, [1,2,3], [p.item(5)])` is marshalled by these steps to the
+schema bytes computed above, and read back -/
+example : Bind.marshalGo exBindings 15 (.named "PT")
+      (Bind.rep exSchema2 (.boxed "p.T") (.sum "p.a" [.num 8, .raw [1, 2, 3], .vec [.tuple [.num 5]]]))
+    = some [0xaa, 0xaa, 0xaa, 0xaa, 8, 0, 0, 0, 3, 1, 2, 3, 1, 0, 0, 0, 5, 0, 0, 0, 0, 0, 0, 0] :=
+  (steps_eq_schema exSchema2 exBindings (by decide) (by decide) (.boxed "p.T") _ _ 15 (by decide) (by decide)
+    (by decide) (by decide)).1
 
 end Tongo.C09
